@@ -51,6 +51,11 @@ func (td TypeDeclaration) CompletionAtPos(ctx context.Context, pos hcl.Pos) []la
 		// position in complex type name (or right after it, in front of the parenthesis)
 		if eType.NameRange.ContainsPos(pos) || eType.NameRange.End.Byte == pos.Byte {
 			prefixLen := pos.Byte - eType.NameRange.Start.Byte
+			if prefixLen > len(eType.Name) {
+				// the name range of a namespaced function (a:: b)
+				// may be longer than the name itself
+				prefixLen = len(eType.Name)
+			}
 			prefix := eType.Name[0:prefixLen]
 
 			editRange := eType.Range()
